@@ -85,6 +85,7 @@ fn en(i: usize) -> &'static str {
 /// Fair run to quiescence: poll both tasks with full grants, accept, complete calls, retry blocked
 /// writes and read everything, round after round, until a whole round changes nothing.
 fn settle(sim: &mut Sim, intent: &mut Intent, lazy: bool) {
+    let mut idle = 0;
     for _round in 0..400 {
         let before = progress_mark(sim);
         for i in 0..sim.real {
@@ -129,13 +130,33 @@ fn settle(sim: &mut Sim, intent: &mut Intent, lazy: bool) {
                 for h in hs {
                     sim.exec(&json!({"op": "read", "e": en(i), "h": h, "max": 64}));
                 }
+                // bridges are driven to completion against a local side that accepts everything and has
+                // nothing more to say, then dropped
+                let bs: Vec<(u32, bool)> = sim.eps[i].bridges.iter().filter(|(_, v)| v.fut.is_some()).map(|(k, v)| (*k, v.done)).collect();
+                for (b, done) in bs {
+                    if done {
+                        sim.exec(&json!({"op": "bridge_drop", "e": en(i), "b": b}));
+                    } else {
+                        sim.exec(&json!({"op": "bridge_poll", "e": en(i), "b": b, "env": {
+                            "rd": [{"k": "eof", "n": 0}],
+                            "wr": [{"k": "ready", "n": 64}, {"k": "ready", "n": 64}, {"k": "ready", "n": 64}, {"k": "ready", "n": 64}],
+                            "fl": {"k": "ready", "n": 0}, "sh": {"k": "ready", "n": 0}}}));
+                    }
+                }
             }
         }
         if sim.dead {
             return;
         }
         if progress_mark(sim) == before {
-            break;
+            // a poll may have changed internal state only (e.g. processed a drop notification whose
+            // Reset is sent by the next poll): require two idle rounds in a row
+            idle += 1;
+            if idle >= 2 {
+                break;
+            }
+        } else {
+            idle = 0;
         }
     }
     let n = sim.out.len();
@@ -163,6 +184,26 @@ fn progress_mark(sim: &Sim) -> (usize, usize) {
 
 fn pick<T: Clone>(rng: &mut SmallRng, v: &[T]) -> T {
     v[rng.random_range(0..v.len())].clone()
+}
+
+fn random_ans(rng: &mut SmallRng, ready: &str) -> Value {
+    match rng.random_range(0..12) {
+        0 => json!({"k": "err", "n": 0}),
+        1 | 2 | 3 => json!({"k": "pending", "n": 0}),
+        4 if ready == "data" => json!({"k": "eof", "n": 0}),
+        _ => json!({"k": ready, "n": rng.random_range(1..=3)}),
+    }
+}
+
+fn random_env(rng: &mut SmallRng) -> Value {
+    let rd: Vec<Value> = (0..rng.random_range(0..=3)).map(|_| random_ans(rng, "data")).collect();
+    let wr: Vec<Value> = (0..rng.random_range(0..=3)).map(|_| random_ans(rng, "ready")).collect();
+    let one = |rng: &mut SmallRng| match rng.random_range(0..10) {
+        0 => json!({"k": "err", "n": 0}),
+        1 | 2 => json!({"k": "pending", "n": 0}),
+        _ => json!({"k": "ready", "n": 0}),
+    };
+    json!({"rd": rd, "wr": wr, "fl": one(rng), "sh": one(rng)})
 }
 
 fn random_cfg(rng: &mut SmallRng, mode: &str) -> Cfg {
@@ -286,12 +327,13 @@ fn random_trace(mode: &str, rng: &mut SmallRng, steps: usize) -> Sim {
     let mut sim = Sim::new(cfgs.clone(), 2);
     let mut intent = Intent::default();
     let mut next_c = 1u32;
-    let closes = matches!(mode, "close" | "all" | "fault" | "open");
+    let closes = matches!(mode, "close" | "all" | "fault" | "open" | "bridge");
     let opens_both = matches!(mode, "open" | "close" | "all" | "bind" | "fault");
     let dgrams = matches!(mode, "dgram" | "all" | "fault");
     let binds = matches!(mode, "bind" | "all");
     let faults = mode == "fault";
     let dropmux = matches!(mode, "fault" | "all");
+    let bridges = mode == "bridge";
     let max_streams = if mode == "pair" || mode == "fair" { 2 } else { 4 };
     let mut fault_at = if faults { rng.random_range(0..steps.max(1)) } else { usize::MAX };
     let mut opened = [0usize; 2];
@@ -374,6 +416,20 @@ fn random_trace(mode: &str, rng: &mut SmallRng, steps: usize) -> Sim {
                 for r in sim.eps[i].breqs.keys() {
                     cands.push((2, json!({"op": "bind_reply", "e": e, "r": r, "accept": rng.random_bool(0.5)})));
                     cands.push((1, json!({"op": "bind_drop", "e": e, "r": r})));
+                }
+            }
+            if bridges {
+                for b in sim.eps[i].bridges.iter().filter(|(_, v)| v.fut.is_some() && !v.done).map(|(k, _)| *k) {
+                    cands.push((6, json!({"op": "bridge_poll", "e": e, "b": b, "env": random_env(rng)})));
+                    if rng.random_range(0..30) == 0 {
+                        cands.push((1, json!({"op": "bridge_drop", "e": e, "b": b})));
+                    }
+                }
+                for b in sim.eps[i].bridges.iter().filter(|(_, v)| v.fut.is_some() && v.done).map(|(k, _)| *k) {
+                    cands.push((2, json!({"op": "bridge_drop", "e": e, "b": b})));
+                }
+                for h in sim.eps[i].streams.keys() {
+                    cands.push((2, json!({"op": "bridge_start", "e": e, "h": h})));
                 }
             }
             for h in sim.eps[i].streams.keys() {
